@@ -384,7 +384,7 @@ class DataType(_BaseModel):
                 imports = (
                     *imports,
                     (self.is_list, IMPORT_ABC_SEQUENCE),
-                    (self.is_set, IMPORT_ABC_SET),
+                    (self.is_set, IMPORT_FROZEN_SET),
                     (self.is_dict, IMPORT_ABC_MAPPING),
                 )
             else:
